@@ -16,7 +16,8 @@ for d in sorted(glob.glob('/verif/seeded/*/meta.json')):
     if m.get('status_on_current_tree'):
         obs+=1; rows.append(f"| {name} | {m['property']} | {summ} | obsolete on the repaired tree | - |"); continue
     if not r: rows.append(f"| {name} | {m['property']} | {summ} | (not run) | |"); continue
-    if 'rc=1' in r[2]: caught+=1; v=f"exit 1, {r[3]} violation class(es)"
+    cb=m.get('checked_by')
+    if 'rc=1' in r[2]: caught+=1; v=f"exit 1, {r[3]} violation class(es)"+(f" — by the {cb} check; the {m['property']} check does not reach it (see note)" if cb else '')
     elif 'rc=0' in r[2]: missed+=1; v="**missed** (exit 0)"
     else: v=r[2]
     rows.append(f"| {name} | {m['property']} | {summ} | {v} | {r[4] if len(r)>4 else ''} / {r[5] if len(r)>5 else ''} |")
